@@ -162,6 +162,8 @@ func (s *Swarm[T]) getFullAddr(ctx context.Context, addr Addr[T]) (*p2pke.Channe
 		s.store.deleteMatching(s.keyForAddr(addr.Addr), func(v *channelState) bool {
 			return v.Channel == c.Channel
 		})
+		// the channel is out of the store for good: stop its timers, or it rekeys on its own forever.
+		c.Channel.Close()
 	}
 }
 
